@@ -46,7 +46,7 @@ check("C03", "exploration",
       "Every byte string of length <=5 (thorough <=6) over an 11-symbol opcode alphabet x 4 bases, plus structured hostile deltas, is "
       "applied by both dulwich decoders in crash-isolated workers whose address-space limit is lowered around each call; outcome "
       "class (value / ApplyDeltaError / other exception / panic / abort / MemoryError / hang) and output bytes are judged against an "
-      "independent transcription of git's patch-delta.c. Generated (base,target) pairs run through python/rust/git encoders x "
+      "independent transcription of git's patch-delta.c (incl. size headers of N + k*2^64 in 10+ byte varints). Generated (base,target) pairs run through python/rust/git encoders x "
       "python/rust/git decoders. Exhaustive only in the stated sub-space.",
       "reference decoder transcribes patch-delta.c and is cross-checked against C git in the same run; deltas shorter than git's DELTA_SIZE_MIN are not offered to the git decoder; lenient acceptance (invalid trailing op skipped) is tolerated when the output has the declared length and is composed of the valid ops",
       "DESIGN.md §5 C03")
@@ -62,10 +62,11 @@ check("C15", "exploration",
 
 check("C16", "exploration",
       "online reference-model monitor over generated ref-operation sequences on the real files/dict/reftable containers with C git listing the same directory; exhaustive ref-name sweep against a transcription of git's check_refname_format confirmed by the real binary",
-      "After every one of 25 operations per sequence (set/add/delete conditional and unconditional, symrefs, pack_refs, re-open; 9 names incl. "
-      "a directory/file pair, symref chains, HEAD) return value, exception class and the full observable state of the real container are "
+      "After every one of 25 operations per sequence (set/add/delete conditional and unconditional, symrefs, pack_refs, re-open; 10 names incl. "
+      "a directory/file pair, a ref directly below refs/, symref chains, HEAD) return value, exception class and the full observable state of the real container are "
       "compared with a map model; git for-each-ref/symbolic-ref list the files backend every few steps. check_ref_format is compared on ALL "
-      "byte strings of length <=4 (thorough 5) over a 20-symbol alphabet. Decides the property on the sequences generated.",
+      "byte strings of length <=4 (thorough 5) over a 20-symbol alphabet; symref chains of every length 1..8 (through HEAD, packed, to "
+      "present/absent/tag targets) read, listed and written through against what C git resolves. Decides the property on the sequences generated.",
       "sequential map model of the documented contract; git 2.39.5; reftable vs git not compared (no reftable in git 2.39); NamespacedRefsContainer, peeled values and locked_ref not yet driven",
       "DESIGN.md §5 C16")
 
@@ -75,7 +76,7 @@ check("C01", "exploration",
       "and the legacy --700, 0..8 parents, encoding, folded extra headers, mergetags, PGP/SSH signatures, missing messages/blank lines, "
       "prefix-colliding tree names) are checked after every setter and at generated observation points; parsed texts are re-serialised "
       "unchanged and after one-field edits; git hashes, reads and rebuilds the same logical objects. Decides the property on the inputs generated.",
-      "reference serialiser written from the git format documentation; git 2.39.5; in-place mutation of returned lists is not a setter call and is excluded",
+      "reference serialiser written from the git format documentation; git 2.39.5; in-place mutation of a returned list counts only when the list is assigned back through the setter",
       "DESIGN.md §5 C01")
 
 check("C12", "exploration",
@@ -83,7 +84,8 @@ check("C12", "exploration",
       "Every listing of <=2 (thorough 3) entries over 9 conflict-prone names x 4 modes is paired with sampled partners, plus random larger pairs "
       "with mode-only/type-only changes, file<->directory swaps and emptied directories: commit_tree/flatten/lookup inverse, canonical "
       "entry order of every subtree, diff soundness+completeness+uniqueness under 7 flag variants, path filters vs the definitional "
-      "restriction, commit_tree_changes vs rebuild; git write-tree ids and git diff-tree raw output on random pairs.",
+      "restriction, commit_tree_changes vs rebuild; one RenameDetector reused across thousands of diffs with max_files 1..3 and near-copy "
+      "blobs; git write-tree ids and git diff-tree raw output on random pairs.",
       "flat-listing reference; with RenameDetector only soundness invariants are demanded; git 2.39.5",
       "DESIGN.md §5 C12")
 
@@ -92,7 +94,8 @@ check("C11", "exploration",
       "Generated entry sets (arbitrary-byte paths, v4 strip lengths across 127/128 and 16383/16384, names of 0xFFC..0x2001 bytes, conflict "
       "stages, stat values to 2^63, flag bits, versions 2/3/4 x skipHash x unknown extensions) are written by dulwich, decoded by the "
       "reference codec (order, name-length saturation, padding, varint, trailer), read back by dulwich and listed by git; git-written "
-      "indexes are read and rewritten by dulwich and listed again by git; every byte flip (2 patterns) and truncation of small indexes must raise.",
+      "indexes are read and rewritten by dulwich and listed again by git, then conflicts are resolved with one side / their sides swapped re-using "
+      "the entry objects read from disk; every byte flip (2 patterns) and truncation of small indexes must raise.",
       "reference decoder from gitformat-index; stat fields modulo git's 32-bit truncation; git 2.39.5; sha256 repositories not covered (index code is sha1-only)",
       "DESIGN.md §5 C11")
 
@@ -101,7 +104,9 @@ check("C02", "exploration",
       "Generated object sets (size-varint and 64 KiB boundaries, similar-blob families for delta chains, all types) through every writer x "
       "deltify x window x ofs/ref x compression x idx v1/v2/v3; indexes rebuilt by PackData.create_index and DiskObjectStore.add_pack over "
       "zlib-slice-boundary sweeps; synthetic 64-bit offset tables; git packs with chains to depth 50, idx v1/v2, thin packs through "
-      "add_thin_pack, stored-delta reuse via write_pack_from_container; SHA-256 through a sha256 repository's object store. Decides the "
+      "add_thin_pack, every such pack also streamed through PackStreamReader/add_thin_pack in fixed-size packets of 1..130 bytes; offset deltas "
+      "whose distance to the base sweeps the carry boundaries of the offset varint (2^14, 2^15, 3*2^14, 2^16, 2^21 +-460); stored-delta reuse "
+      "via write_pack_from_container; SHA-256 through a sha256 repository's object store. Decides the "
       "property on the inputs generated.",
       "vt.ref.packfmt validated on git-written packs each run; byte identity with git's idx only for v2/SHA-1; delta choices never compared; the low-level writers' returned entry table is SHA-1 keyed, so SHA-256 is driven through the object store (the supported path)",
       "DESIGN.md §5 C02")
@@ -112,14 +117,14 @@ check("C07", "fault_enumeration",
       "bound 2 (thorough 3). Monitors: mutual exclusion, foreign-lock disturbance, atomic replacement after every step, payload-at-rename, "
       "loser gets FileLocked. Faults: each call of index/refs/packed-refs/config/loose-object/shallow/commit-graph/named-file writers x 5 "
       "fault kinds; oracle after the exception was handled and collected: every file complete-old or complete-new, no *.lock left, next "
-      "writer succeeds.",
+      "writer succeeds; a failed single-lock write leaves the old content; all routines also with core.sharedRepository (chmod in the protocol).",
       "atomicity of a single rename(2)/open(O_EXCL) assumed from POSIX; interleavings at the granularity of interposed Python-level calls; actors are threads with separate objects sharing only the directory",
       "DESIGN.md §5 C07")
 
 check("C08", "exploration",
       "runtime linearizability monitoring: histories of ref operations by 2-3 actors, interleaved by a deterministic scheduler at interposed system-call granularity (all schedules within a preemption bound, DFS), recorded at the client boundary with unique values and checked by exhaustive search against a sequential ref map; commit races judged by ancestry of the final tip",
       "All pairs over {cas, cas via HEAD, stale cas, add_if_new, remove_if_equals, set, delete, pack_refs, read, read via HEAD, read of another "
-      "ref} x initial state {loose, packed, both, absent} and 5 triples: every schedule with <=2 preemptions (thorough 3) on the ref paths; "
+      "ref, listing (as_dict, checked per key)} x initial state {loose, packed, both, absent} and 5 triples: every schedule with <=2 preemptions (thorough 3) on the ref paths; "
       "operations that raise must linearise as no-ops; final state read through a fresh container. WorkTree.commit/do_commit races: every "
       "commit id returned without exception must be an ancestor of the final tip.",
       "interleavings at the granularity of interposed Python-level calls on refs/, HEAD, packed-refs*, *.lock; kernel atomicity of rename/O_EXCL assumed; actors are threads with separate container objects",
@@ -127,8 +132,9 @@ check("C08", "exploration",
 
 check("C09", "fault_enumeration",
       "runtime crash-point enumeration: each repository-changing operation runs once under os.*/open interposition with user-space buffering emulated by the file proxies; the directory is snapshotted before every mutating system call and after the last (exactly the state a process crash leaves), power-loss variants truncate files with unsynced data, and every state goes through a post-crash checker (dulwich re-open + independent git fsck/for-each-ref); sampled real SIGKILLs under strace cross-validate",
-      "18 operations (loose/packed object ingestion, thin pack, fetch into, push into, commit, ref set/add/remove/symref, pack_refs, "
+      "19 operations (loose/packed object ingestion, thin pack, fetch into, push into, commit, ref set/add/remove/symref, pack_refs, "
       "pack_loose_objects, repack, gc, index, config, commit-graph, midx) x starting states {loose, packed, mixed, mixed+fsyncObjectFiles}; "
+      "detached HEAD on a commit no ref contains, and a dulwich-installed pack whose object set is delivered again in another byte layout; "
       "all crash points per scenario (evidence lists counts); checker: Repo opens, every ref old-or-new and naming a present object, the whole "
       "pre-operation closure readable with identical bytes, visible objects hash to their names, index/config parse to old or new, git fsck "
       "--full --strict passes, git lists old-or-new refs.",
@@ -140,8 +146,11 @@ check("C10", "exploration",
       "150 (thorough 1500) histories from 17 build-op kinds (alternates, gitlinks, symlinks, detached HEAD, tags of blobs, duplicates across packs "
       "and loose files, aged files, deleted/reset branches) x 1..5 of 14 maintenance steps: after each step every object of the pre-state closure "
       "of refs+HEAD is read through a fresh Repo (same type and bytes), git fsck --connectivity-only passes, vanished ids are unreachable and "
-      "outside the grace period. Concurrent: 4 repacker workloads x 3 layouts (two packs, pack+loose, multi-pack-index) x 3 reader "
-      "configurations, every schedule with <=2 preemptions.",
+      "outside the grace period (youngest copy counts: old pack + young loose duplicate); refs directly below refs/; maintenance through a "
+      "long-lived handle after another process moved and re-packed a ref. Concurrent: 4 repacker workloads x 3 layouts (two packs, pack+loose, "
+      "multi-pack-index) x 3 reader configurations, every schedule with <=2 preemptions; C git's prune-packed emulated call by call against "
+      "iterating readers; a directed adversary (scheduler policy) that lets two complete maintenance steps overtake one lookup at every pair "
+      "of the reader's file-system calls.",
       "objects reachable only from index/reflogs and gitlink targets are outside the statement; iteration gaps during a repack are counted, not judged; scheduler granularity = interposed Python-level calls",
       "DESIGN.md §5 C10")
 
@@ -149,8 +158,10 @@ check("C06", "exploration",
       "runtime reference-model monitor of receive-pack: generated command lists are pushed through the real ReceivePackHandler (scripted pkt-line client), by C git push against the dulwich TCP server, and by LocalGitClient; raw report-status lines and the server refs read back with git are compared with a sequential receive-pack model; racing pushers are interleaved by the deterministic scheduler",
       "1200 (thorough 12000) scripted pushes: 1..3 commands over loose / packed / loose+packed / new / nested refs x old in {right, stale, zero-but-"
       "exists, nonzero-but-absent} x new in {new commits, object already on server, delete, missing object, not in pack} x {atomic, side-band-64k, "
-      "ofs-delta}; git push [--atomic] [--force-with-lease right/stale] over git://; two pushers racing on one ref (handler and local paths, loose "
-      "and packed) under all schedules with <=2 preemptions. Oracle: ok <=> value, stale => untouched+rejected, targets exist, atomic all-or-none.",
+      "ofs-delta} x pack {intact, trailer bit flipped, truncated, body bit flipped: nothing may take effect}; git push [--atomic] "
+      "[--force-with-lease right/stale] over git://; two pushers racing on one ref (handler and local paths; loose, packed and not yet existing "
+      "refs incl. nested and tag) under all schedules with <=2 preemptions, two local successes judged against the old value each pusher saw. "
+      "Oracle: ok <=> value, stale => untouched+rejected, targets exist, atomic all-or-none.",
       "sequential receive-pack model; server refs read back with C git; hooks not exercised",
       "DESIGN.md §5 C06")
 
@@ -173,7 +184,8 @@ check("C04", "fault_enumeration",
       "decompression bombs, valid depth-40 chain, 26 hostile delta payloads inside structurally valid OFS/REF packs (copy past the base, "
       "4 GiB offsets, size-0 copies, truncated inserts, size mismatches, reserved opcode, over-long varints), malformed tree/commit/tag "
       "payloads before and after well-formed objects; installed loose object/idx/index/packed-refs/commit-graph/multi-pack-index: every (2nd) byte "
-      "x 2 patterns + truncations, reads through Repo. Rust and pure-Python decoders both driven.",
+      "x 2 patterns + truncations, reads through Repo (packed-refs asked twice on one handle, then updated); I/O faults: a valid pack ingested "
+      "while the k-th mutating call (incl. buffered writes) fails with ENOSPC/EIO, every k, 3 paths. Rust and pure-Python decoders both driven.",
       "ordinary error = Exception subclass; leftover tmp files after a failed ingestion are counted, not judged; Pack.get_raw trusts its idx by design, only store[id] is judged for damaged indexes; the inflation bound is declared size + 64 KiB per zlib stream",
       "DESIGN.md §5 C04")
 
